@@ -164,6 +164,11 @@ RefViol(P, r) ==
       \cup (IF Len(ps) > 0 /\ ps[1].ok /\ ps[1].root # RootOf(r.hf) THEN {"part-root"} ELSE {})
       \cup (IF Len(ps) > 0 /\ ps[1].ct # TyOf(r.hf) THEN {"part-content-type"} ELSE {})
 
+\* the slots whose references reach the part a header/footer relationship points to (for attribution)
+SlotsReaching(P, rel) ==
+  LET S == {<<r.hf, r.kind>> : r \in {x \in ToSet(P.refs) : TargetOf(P, x) = rel.tgt}}
+  IN IF S = {} THEN {<<IF rel.ty = "header" THEN "h" ELSE "f", "-">>} ELSE S
+
 Viol_Struct(P) ==
        {<<"dup-ref", s.hf, s.kind>> : s \in {x \in Slots : Len(RefsOf(P, x)) > 1}}
   \cup UNION {{<<w, r.hf, r.kind>> : w \in RefViol(P, r)} : r \in ToSet(P.refs)}
@@ -172,7 +177,7 @@ Viol_Struct(P) ==
           r \in {x \in ToSet(P.refs) : \E y \in ToSet(P.refs) :
                     (y.hf # x.hf \/ y.kind # x.kind) /\ TargetOf(P, x) # "" /\ TargetOf(P, x) = TargetOf(P, y)}}
   \* a second (stale) header/footer relationship to the same part
-  \cup {<<"dup-target-rel", IF HfRels(P)[i].ty = "header" THEN "h" ELSE "f", "-">> :
+  \cup UNION {{<<"dup-target-rel", x[1], x[2]>> : x \in SlotsReaching(P, HfRels(P)[i])} :
           i \in {a \in 1..Len(HfRels(P)) : \E b \in 1..Len(HfRels(P)) : a # b /\ HfRels(P)[a].tgt = HfRels(P)[b].tgt}}
 
 \* C11 on a state: structure + every slot shows exactly its latest definition
